@@ -244,8 +244,26 @@ func checkElementRepresentation(res *Result, S *Streams, pm *PropModel, rule str
 	}
 	res.check(len(memberOfSetter) == len(pm.Members), rule, fn, "-", fmt.Sprintf("each of the %d members has exactly one typed setter", len(pm.Members)), fmt.Sprintf("%d setters resolved", len(memberOfSetter)))
 
-	// composites anywhere in the package
+	checkElementComposites(res, S, pm, rule, memberOfSetter, nil)
+}
+
+// checkElementComposites: every element literal built in the package (or only
+// in the functions `only`) holds at most one representation, with that
+// member's own flag set to the constant true; container methods <Op><X> fill
+// the member of kind X.
+func checkElementComposites(res *Result, S *Streams, pm *PropModel, rule string, memberOfSetter map[string]*Member, only map[*ast.FuncDecl]bool) {
+	info := pm.G.Pkg.TypesInfo
+	fn := pm.G.Dir
+	flagOwner := map[*types.Var]*Member{}
+	for _, m := range pm.Members {
+		if m.HasFlag != nil {
+			flagOwner[m.HasFlag] = m
+		}
+	}
 	for name, fd := range pm.G.Funcs {
+		if only != nil && !only[fd] {
+			continue
+		}
 		for _, cs := range compositesOf(info, fd, pm.Elem) {
 			var mem []*Member
 			var flags []*types.Var
